@@ -84,6 +84,10 @@ func (h *H) ask(line string) string {
 }
 
 func main() {
+	if os.Getenv("C07_DUMP_GOLDEN") != "" {
+		dumpGolden()
+		return
+	}
 	if os.Getenv("C07_DUMP_TABLES") != "" {
 		// developer aid: print the Lean type tables derived from the real Go types
 		for _, st := range typedTables() {
@@ -124,7 +128,8 @@ func main() {
 		run  func(h *H)
 	}
 	var tasks []task
-	tasks = append(tasks, task{"typed", func(h *H) { h.phaseTyped() }}, task{"projection-tables", func(h *H) { h.phaseProjTables() }})
+	tasks = append(tasks, task{"typed", func(h *H) { h.phaseTyped() }}, task{"projection-tables", func(h *H) { h.phaseProjTables() }},
+		task{"binary", func(h *H) { h.phaseBinary() }}, task{"golden", func(h *H) { h.phaseGolden() }})
 	for sh := 0; sh < 6; sh++ {
 		tasks = append(tasks, task{fmt.Sprintf("proj/%d", sh), func(h *H) { h.phaseProj(sh, 6) }})
 	}
@@ -138,6 +143,9 @@ func main() {
 	for sh := 0; sh < 2; sh++ {
 		tasks = append(tasks, task{fmt.Sprintf("chain/%d", sh), func(h *H) { h.phaseChain(sh, 2) }})
 	}
+	for sh := 0; sh < 4; sh++ {
+		tasks = append(tasks, task{fmt.Sprintf("produce/%d", sh), func(h *H) { h.phaseProduce(sh, 4) }})
+	}
 	tasks = append(tasks,
 		task{"utf8", func(h *H) { h.phaseUTF8() }}, task{"limits/0", func(h *H) { h.phaseLimits(0, 4) }},
 		task{"limits/1", func(h *H) { h.phaseLimits(1, 4) }}, task{"limits/2", func(h *H) { h.phaseLimits(2, 4) }},
@@ -145,7 +153,7 @@ func main() {
 	var mu sync.Mutex
 	timings := map[string]float64{}
 	var wg sync.WaitGroup
-	sem := make(chan struct{}, 16)
+	sem := make(chan struct{}, 20)
 	for _, tk := range tasks {
 		wg.Add(1)
 		go func() {
@@ -325,9 +333,13 @@ func clip(s string) string {
 // ---------------------------------------------------------------------------------------------
 
 func blockSizes(r *lib.RNG, i int) (nt, nr int) {
-	sizes := [][2]int{{0, 0}, {1, 1}, {2, 2}, {3, 3}, {1, 0}, {0, 1}, {2, 1}, {1, 3}, {0, 2}, {5, 5}, {24, 24}, {30, 30}}
-	if i < len(sizes) {
-		return sizes[i][0], sizes[i][1]
+	// exhaustive: every (transactions, receipts) count pair up to 4 x 4, then the head-width sizes
+	if i < 25 {
+		return i / 5, i % 5
+	}
+	sizes := [][2]int{{5, 5}, {23, 23}, {24, 24}, {30, 30}, {25, 3}}
+	if i-25 < len(sizes) {
+		return sizes[i-25][0], sizes[i-25][1]
 	}
 	n := r.Intn(9)
 	if r.Chance(1, 6) {
